@@ -251,7 +251,7 @@ theorem opMove_refines (ser : JVal → Bytes) (doc elem jfrom : JVal) (fs ps : B
         · simp [OpAgrees, Rfc6902.applyOp, hpp, h]
       | ok g =>
         obtain ⟨hget, _, _, _⟩ := getInternal_ok_spec doc fs F' hf hs g hg
-        exact ⟨_, rfl, fun _ => by simp [OpAgrees, Rfc6902.applyOp, hpp, hget, OpRes.done]⟩
+        exact ⟨_, rfl, fun _ => by simp [OpAgrees, Rfc6902.applyOp, hpp, hget]⟩
     · -- proper prefix: a location cannot be moved into one of its children
       have hne : F'.length ≠ P'.length := by
         intro hl
@@ -261,7 +261,7 @@ theorem opMove_refines (ser : JVal → Bytes) (doc elem jfrom : JVal) (fs ps : B
       have hpp : Rfc6902.properPrefix F' P' = true := by simp [Rfc6902.properPrefix, hF, hne]
       have hlen' : (fs.length == ps.length) = false := by simpa using hlen
       simp only [hpr, hlen', Bool.and_false, Bool.false_eq_true, if_false, if_true]
-      exact ⟨_, rfl, fun _ => by simp [OpAgrees, Rfc6902.applyOp, hpp, OpRes.fail]⟩
+      exact ⟨_, rfl, fun _ => by simp [OpAgrees, Rfc6902.applyOp, hpp]⟩
   · have hpr' : fromIsPrefix fs ps = false := by simpa using hpr
     have hF : F'.isPrefixOf P' = false := by rw [← hpre]; exact hpr'
     have hpp : Rfc6902.properPrefix F' P' = false := by simp [Rfc6902.properPrefix, hF]
@@ -301,7 +301,7 @@ theorem opMove_refines (ser : JVal → Bytes) (doc elem jfrom : JVal) (fs ps : B
         | err e =>
           rw [hset] at hag
           cases ha : Rfc6902.add d1 P' g.obj with
-          | none => exact ⟨_, rfl, fun _ => by simp [OpAgrees, Rfc6902.applyOp, hpp, hget, hFP, hrem, ha, OpRes.fail]⟩
+          | none => exact ⟨_, rfl, fun _ => by simp [OpAgrees, Rfc6902.applyOp, hpp, hget, hFP, hrem, ha]⟩
           | some d => rw [ha] at hag; exact absurd hag id
         | ok d =>
           rw [hset] at hag
@@ -311,7 +311,7 @@ theorem opMove_refines (ser : JVal → Bytes) (doc elem jfrom : JVal) (fs ps : B
             rw [ha] at hag
             simp only [Agree] at hag
             subst hag
-            exact ⟨_, rfl, fun _ => by simp [OpAgrees, Rfc6902.applyOp, hpp, hget, hFP, hrem, ha, OpRes.done]⟩
+            exact ⟨_, rfl, fun _ => by simp [OpAgrees, Rfc6902.applyOp, hpp, hget, hFP, hrem, ha]⟩
 
 /-! ### one loop iteration -/
 
